@@ -7,6 +7,7 @@ import (
 	"reflect"
 	"runtime/debug"
 	"sync"
+	"sync/atomic"
 	"time"
 	"unsafe"
 )
@@ -118,6 +119,8 @@ type Result struct {
 	Fingerprint uint64
 	Stats       Stats
 	Log         []string
+	// task goroutines that could not be ended (always 0 in a returned result: Run panics otherwise)
+	TeardownIncomplete int
 }
 
 type chanState struct {
@@ -169,6 +172,7 @@ type sched struct {
 	cfg   Config
 	req   chan request
 	join  sync.WaitGroup
+	liveG int64   // task goroutines that have not finished yet (atomic)
 	tasks []*Task // every task of the run (for reports)
 	alive []*Task // tasks that have not exited yet, in creation order
 	live  int
@@ -282,6 +286,7 @@ func (s *sched) newTask(role string, parent int) *Task {
 	}
 	s.res.Stats.Tasks++
 	s.join.Add(1)
+	atomic.AddInt64(&s.liveG, 1)
 	return t
 }
 
@@ -478,6 +483,10 @@ func Run(cfg Config, root func()) *Result {
 	quantum = 0
 	cur = nil
 	raceEnable()
+	if s.res.TeardownIncomplete != 0 {
+		// goroutines of this run would talk to the scheduler of the next one
+		panic(fmt.Sprintf("simrt: teardown incomplete, %d task goroutine(s) could not be ended", s.res.TeardownIncomplete))
+	}
 	s.join.Wait()
 	sch = nil
 
@@ -518,6 +527,16 @@ func (s *sched) end(reason string) {
 	}
 }
 
+// teardown ends every task that is still alive, one at a time (so that deferred code
+// of two dying tasks never runs concurrently): the goroutine parked on the wake channel
+// of the task leaves through runtime.Goexit and reports back.
+//
+// Code that hands control between goroutines behind the simulator's back (runtime
+// coroutines: iter.Pull) can leave the goroutine of one task parked under the name of
+// another one. Results are final before the teardown starts, so this only matters for
+// getting rid of the goroutines: a task that does not confirm in time is left for a
+// second pass that wakes every parked goroutine whatever name it waits under.
+//
 //go:norace
 func (s *sched) teardown() {
 	for _, t := range append([]*Task(nil), s.alive...) {
@@ -526,16 +545,61 @@ func (s *sched) teardown() {
 		}
 		cur = t
 		t.wake <- wakeMsg{kind: wkKill}
-		for {
-			r := <-s.req
-			if r.kind == rqKilled && r.t == t {
-				break
-			}
-			// requests from deferred code of the dying task cannot happen
-			// (killed tasks never ask); anything else is a protocol error
-			panic(fmt.Sprintf("simrt: unexpected request kind %d from task %d during teardown of %d", r.kind, r.t.ID, t.ID))
+		s.awaitKilled(t, 200*time.Millisecond)
+	}
+	deadline := time.Now().Add(10 * time.Second)
+	for atomic.LoadInt64(&s.liveG) > 0 {
+		if time.Now().After(deadline) {
+			s.res.TeardownIncomplete = int(atomic.LoadInt64(&s.liveG))
+			return
 		}
-		t.st = stDone
+		for _, t := range s.tasks {
+			select {
+			case t.wake <- wakeMsg{kind: wkKill}:
+			default:
+			}
+		}
+		s.awaitKilled(nil, 2*time.Millisecond)
+	}
+}
+
+// awaitKilled takes requests until task t has confirmed its end (t == nil: until the
+// time is over). A request that asks for something comes from a goroutine that runs
+// under a name whose turn is still to come; it stays parked on that wake channel.
+//
+//go:norace
+func (s *sched) awaitKilled(t *Task, d time.Duration) bool {
+	var timeout <-chan time.Time
+	for {
+		select {
+		case r := <-s.req:
+			switch r.kind {
+			case rqKilled, rqExit, rqPanic:
+				r.t.st = stDone
+				if r.t == t {
+					return true
+				}
+			}
+		default:
+			if t == nil && atomic.LoadInt64(&s.liveG) == 0 {
+				return true
+			}
+			if timeout == nil {
+				timeout = time.After(d)
+			}
+			select {
+			case r := <-s.req:
+				switch r.kind {
+				case rqKilled, rqExit, rqPanic:
+					r.t.st = stDone
+					if r.t == t {
+						return true
+					}
+				}
+			case <-timeout:
+				return false
+			}
+		}
 	}
 }
 
